@@ -34,14 +34,19 @@ What is proved
     in id order, whatever indexes exist;
   * `C11.find_index_independent` – two histories with the same data operations and any non-unique `Index`/`Unindex`
     operations interleaved anywhere (or none) answer every data operation alike and store the same documents.
+  * `C11.find_index_independent_unique` – the same with unique indexes in the histories: the operations that may be
+    interleaved freely are the *inert* ones (non-unique `Index` / `Unindex` over keys no unique index of the history is
+    declared over); everything else – data operations and unique `Index` operations – answers alike, and documents and
+    declared unique constraints coincide.
 Hypotheses that remain, and why: index keys are field names and index filters well-formed (`GoodOp`; a key starting with
 `$` is unsound in the code itself); the interleaved indexes are non-unique (a unique index is meant to change the outcome
 of the calls it rejects – C12 covers those).
 -/
 import Uniflow.Proofs.Plan
 import Uniflow.Proofs.Indep
+import Uniflow.Proofs.IndepU
 
-open Uniflow.Value Uniflow.Store Uniflow.Query Uniflow.Plan Uniflow.Index
+open Uniflow.Value Uniflow.Store Uniflow.Query Uniflow.Plan Uniflow.Index Uniflow.RefStoreU
 
 /-- Every key list, every filter, every document: a document the reference evaluation lets through lies within the
 bounds of every level of `newExecutionPlan(keys, filter)`, provided the keys are field names (do not start with `$`). -/
@@ -162,3 +167,42 @@ theorem C11.find_index_independent_nonvacuous :
   · intro op hop
     simp only [List.mem_cons, List.mem_nil_iff, or_false] at hop
     rcases hop with rfl | rfl <;> exact ⟨trivial, trivial⟩
+
+/-! ### with unique indexes -/
+
+/-- **find_index_independent_unique** (full statement): histories may contain unique indexes. Call an `Index`/`Unindex`
+operation of a history *inert* when it is a non-unique `Index` or an `Unindex` over keys that no unique `Index` of that
+history, nor the built-in index on `id`, is declared over (`inert`; an operation over the keys of a unique index
+replaces or drops that index – a constraint – and is not inert). Two histories (`GoodOpU`: index keys are field names,
+index filters well-formed, unique indexes over at least one key) that are equal after deleting their inert operations
+(`effOps` – the inert ones may be any number, anywhere, or absent) answer every remaining operation alike – data operations
+*and* the unique `Index` operations – and end with the same stored documents and the same declared unique constraints. -/
+def C11.find_index_independent_unique_full : Prop :=
+  ∀ (ops1 ops2 : List Op), (∀ op ∈ ops1, GoodOpU op) → (∀ op ∈ ops2, GoodOpU op) → effOps ops1 = effOps ops2 →
+    outsSkip (inert ops1) Uniflow.Index.init ops1 = outsSkip (inert ops2) Uniflow.Index.init ops2 ∧
+    (run Uniflow.Index.init ops1).docs = (run Uniflow.Index.init ops2).docs ∧
+    uniqOf (run Uniflow.Index.init ops1) = uniqOf (run Uniflow.Index.init ops2)
+
+/-- **find_index_independent_unique** -/
+theorem C11.find_index_independent_unique : C11.find_index_independent_unique_full := by
+  intro ops1 ops2 h1 h2 he
+  have r1 := run_eff ops1 h1
+  have r2 := run_eff ops2 h2
+  rw [he] at r1
+  have habs : absOf (run Uniflow.Index.init ops1) = absOf (run Uniflow.Index.init ops2) := by rw [r1.2, r2.2]
+  refine ⟨by rw [r1.1, r2.1], ?_, ?_⟩
+  · exact congrArg RState.docs habs
+  · exact congrArg RState.uniq habs
+
+/-- a unique index on `a`, data, and an inert compound index in one history only -/
+theorem C11.find_index_independent_unique_nonvacuous :
+    ∃ ops1 ops2, ops1 ≠ ops2 ∧ effOps ops1 = effOps ops2 ∧ (effOps ops1).length = 3 ∧ ops1.length = 5 :=
+  ⟨[.index [.str [97]] true none,
+    .index [.str [98], .str [97]] false none,
+    .insert [.cons (.str [105, 100]) (.int .native 1) (.cons (.str [97]) (.int .native 7) .nil)],
+    .unindex [.str [98], .str [97]],
+    .insert [.cons (.str [105, 100]) (.int .native 2) (.cons (.str [97]) (.int .native 7) .nil)]],
+   [.index [.str [97]] true none,
+    .insert [.cons (.str [105, 100]) (.int .native 1) (.cons (.str [97]) (.int .native 7) .nil)],
+    .insert [.cons (.str [105, 100]) (.int .native 2) (.cons (.str [97]) (.int .native 7) .nil)]],
+   by simp, rfl, rfl, rfl⟩
